@@ -415,7 +415,7 @@ register(
 # ===========================================================================
 # C10 - completion
 # ===========================================================================
-_C10 = dict(p_final=0.45, p_on_done=1.0, p_parallel=0.3, p_compound=0.35, p_history=0.05, p_always=0.05, p_raise=0.08,
+_C10 = dict(p_falsy_output=0.25, p_final=0.45, p_on_done=1.0, p_parallel=0.3, p_compound=0.35, p_history=0.05, p_always=0.05, p_raise=0.08,
             p_ondone_targetless=0.4, n_states=(5, 12), p_trans=0.55, p_machine_output=0.4, p_out=0.6)
 
 
@@ -452,7 +452,7 @@ register(
 # ===========================================================================
 # C11 - history
 # ===========================================================================
-_C11 = dict(p_history=0.7, p_compound=0.45, p_parallel=0.2, p_final=0.05, p_always=0.03, p_raise=0.03, n_states=(6, 13),
+_C11 = dict(p_hostile_names=0.3, p_history=0.7, p_compound=0.45, p_parallel=0.2, p_final=0.05, p_always=0.03, p_raise=0.03, n_states=(6, 13),
             p_trans=0.6, w_target={"history": 8, "any": 5, "sibling": 4}, p_on_done=0.3)
 
 
@@ -813,7 +813,7 @@ register(
 # ===========================================================================
 from . import c12 as C12  # noqa: E402
 
-_C12 = dict(p_history=0.3, p_parallel=0.25, p_final=0.12, p_always=0.08, p_raise=0.08, p_assign=0.3, n_states=(4, 11),
+_C12 = dict(p_falsy_output=0.35, p_history=0.3, p_parallel=0.25, p_final=0.12, p_always=0.08, p_raise=0.08, p_assign=0.3, n_states=(4, 11),
             w_target={"history": 4}, p_on_done=0.6)
 
 
